@@ -169,12 +169,46 @@ def _check_key(case, notes=None):
         if as_dict is not None and got is not None and as_dict.get('fingerprints') is not None \
                 and dict(as_dict['fingerprints']) != dict(got):
             findings.append(Finding('fingerprint:asdict-differs/%s' % locus, detail))
+    if not findings and model.get('principals') and case.get('construct', True) and c07._constructible(model):  # pylint: disable=protected-access
+        findings.extend(_renamed_principal(model, name))
     seen, out = set(), []
     for finding in findings:
         if finding.key not in seen:
             seen.add(finding.key)
             out.append(finding)
     return out
+
+
+def _renamed_principal(model, name):
+    """A principal of the built certificate is renamed in place (a caller re-issuing a certificate object): the
+    fingerprints and the known_hosts entry are those of the blob of the certificate *with the new name*."""
+    import copy  # pylint: disable=import-outside-toplevel
+    try:
+        obj = c07.lib_key(model)
+    except Exception:  # pylint: disable=broad-except
+        return []
+    index = len(model['principals']) // 2
+    edited = copy.deepcopy(model)
+    edited['principals'][index] = model['principals'][index] + 'xy'
+    try:
+        obj.fingerprints          # read once before the edit, as a report generator would
+        obj.valid_principals[index].value = edited['principals'][index]
+        blob = c07.key_reference(edited)
+    except Exception:  # pylint: disable=broad-except
+        return []
+    want = expected_fingerprints(blob)
+    try:
+        got = obj.fingerprints
+        known_hosts = obj.host_key_asdict().get('known_hosts')
+    except Exception as e:  # pylint: disable=broad-except
+        return [Finding('fingerprint:raises:%s/%s:after-rename' % (type(e).__name__, name), {'error': repr(e)[:200]})]
+    wrong = [label for label, member in _hash_members() if got.get(member) != want[label]]
+    if known_hosts != base64.b64encode(blob).decode('ascii'):
+        wrong.append('known_hosts')
+    if wrong:
+        return [Finding('fingerprint:blob/SshCertValidPrincipals:after-rename', {
+            'class': name, 'wrong': wrong, 'edit': 'valid_principals[%d].value + "xy"' % index})]
+    return []
 
 
 def check_case(case, notes=None):
@@ -193,7 +227,14 @@ def st_case():
     kexinit = c07.st_kexinit().map(lambda model: {'kind': 'kexinit', 'model': model})
     plain = c07.st_plain_key(min_value=2, ecdsa_special=False).map(lambda model: {'kind': 'key', 'model': model})
     cert = c07.st_certificate(min_value=2).map(lambda model: {'kind': 'key', 'model': model})
-    return st.one_of(kexinit, kexinit, kexinit, plain, plain, plain, cert, cert)
+    # certificates whose end of validity lies beyond what a datetime can hold (year 10000 and later, but not the
+    # "forever" value): the library may refuse them - if it accepts one, its fingerprints are still those of the blob
+    def far_future(model, instant):
+        model = dict(model, valid_before=instant)
+        return {'kind': 'key', 'model': model, 'construct': False}
+    unrepresentable = st.builds(far_future, c07.st_certificate(min_value=2),
+                                st.sampled_from((253402300800, 253402300800 + 86400 * 400, 2 ** 63 - 1, 2 ** 63, 2 ** 64 - 2)))
+    return st.one_of(kexinit, kexinit, kexinit, plain, plain, plain, cert, cert, unrepresentable)
 
 
 def _in_domain(case):
